@@ -30,11 +30,13 @@ RULE = ("coarsen_bins: every valid bin table with 1 chromosome of length <=7 and
 TRUSTED = ["pandas groupby(sort=True).aggregate('sum') is modelled as the canonical aggregate (Model/Pixels.v) and observed through CoolerCoarsener",
            "create() stores the concatenation of the chunk stream (property C01/C02, observed here through the output cooler)",
            "multiprocess.Pool.map is order preserving (source-pattern assertion on coarsen_cooler + nproc=2 runs)"]
-ASSUMPTIONS = ["np.floor(start / binsize) equals exact floor division for coordinates < 2^53",
+ASSUMPTIONS = ["numpy float64 true division is the correctly rounded IEEE-754 binary64 quotient (then C08_binary64_relative_bin_exact PROVES np.floor(start / binsize) exact below 2^53)",
                "clr.chromsizes[c] equals the end of the last bin of c (create() derives the chroms table from the bins)"]
 RESIDUE = ["process scheduling, the HDF5 lock and fork/HDF5 interaction are not modelled (Pool.map assumed order preserving)",
            "the theorems hold for every aggregation function; the executable correspondence drives sum, max and min on integer columns through the model (coarsen_cooler_g), float value columns and other pandas aggregations are not exercised"]
-ALLOW_AXIOMS = ()
+# standard-library axioms behind Coq's classical real numbers (used only by the binary64 division theorem, via Flocq)
+ALLOW_AXIOMS = ("ClassicalDedekindReals.sig_not_dec", "ClassicalDedekindReals.sig_forall_dec",
+                "FunctionalExtensionality.functional_extensionality_dep", "Classical_Prop.classic")
 
 HDR = "From Cooler Require Import Model.Coarsen."
 
